@@ -18,7 +18,9 @@ fixed or rotated deterministically / drawn from the seeded generator):
   G  frames/dicts whose rows are given in any order (create_cooler sorts them)
 """
 import itertools
+import shutil
 import os
+import re
 import sys
 import traceback
 import warnings
@@ -67,9 +69,15 @@ class Rec:
         try:
             return True, fn()
         except Exception as e:  # an unexpected exception is a failure of that contract on that case
+            msg = re.sub(r"[^A-Za-z ]+", "#", str(e).split("\n")[0])[:32].strip()  # stable part of the message
             self.fail(contract, case, f"{type(e).__name__}: {e}\n{traceback.format_exc(limit=4)}", "no exception",
-                      f"exception:{type(e).__name__}" + (f":{kind}" if kind else ""))
+                      f"exception:{type(e).__name__}({msg})" + (f":{kind}" if kind else ""))
             return False, None
+
+    def dump(self):
+        if os.environ.get("BOUNDED_DEBUG"):
+            for k, v in sorted(self.sigcount.items()):
+                print(f"  {v:6d}  {k}", file=sys.stderr)
 
 
 # ------------------------------------------------------------------ scope helpers
@@ -179,11 +187,16 @@ def chunk_edges(sizes):
     return e
 
 
+_OPEN = []
+
+
 def build_input(form, recs, bins, symm, valcols, vdtypes, B):
     """the `pixels` argument for create_cooler in the requested input form.
     form = [name, parameter]; returns (pixels, extra kwargs)"""
     name, par = form
     n = len(bins)
+    while _OPEN:
+        _OPEN.pop().close()
     cols = columns_of(recs, valcols, vdtypes)
     if name == "frame":
         return pd.DataFrame(cols), {}
@@ -211,7 +224,9 @@ def build_input(form, recs, bins, symm, valcols, vdtypes, B):
             p = B.path("dense-input.h5")
             with h5py.File(p, "w") as f:
                 f.create_dataset("A", data=A)
-            A = h5py.File(p, "r")["A"]
+            fh = h5py.File(p, "r")
+            _OPEN.append(fh)  # closed at the next build_input call
+            A = fh["A"]
         return ArrayLoader(bins, A, par), {"ordered": True}
     raise ValueError(name)
 
@@ -261,13 +276,14 @@ class Runner:
     def run(self, section, spec, bins, recs, symm, form, valcols=("count",), vdtypes=None, pass_dtypes=True,
             h5opts=None, metadata=None, assembly=None, group=None, expected_recs=None):
         """create with the real library, then evaluate the C01 contracts on what the real reader returns.
-        recs are given to the library in the listed order; expected_recs (default: recs) is what must come back"""
+        recs are given to the library in the listed order; expected_recs (default: recs in (bin1_id, bin2_id) order) is what must come back"""
         B, R = self.B, self.R
         valcols = list(valcols)
         vdtypes = dict(vdtypes or {c: "int32" for c in valcols})
         n = len(bins)
         nnz = len(recs)
-        exp = recs if expected_recs is None else expected_recs
+        # what must come back: the records in (bin1_id, bin2_id) order (inputs of sections A-F are already in that order)
+        exp = sorted(recs, key=lambda r: (r[0], r[1])) if expected_recs is None else expected_recs
         case = dict(section=section, bins=spec, records=[list(r) for r in recs], symmetric_upper=symm, form=list(form),
                     value_columns=valcols, dtypes=vdtypes, pass_dtypes=pass_dtypes,
                     h5opts=h5opts, metadata=metadata, assembly=assembly, group=group)
@@ -392,16 +408,42 @@ def rotate_form(idx, nnz, n, rng):
     return ["iter-frames", [1] * nnz + [0]]
 
 
+def replay(B, run):
+    """re-run exactly one recorded case (./check C01 --replay <file>) and print what every contract says"""
+    import json
+    rec = json.load(open(B.replay_file))
+    c = rec["case"]
+    print("replaying", rec["contract"], "signature:", rec.get("signature"))
+    print("case:", json.dumps(c)[:1500])
+    spec = c["bins"]
+    run.run(c["section"], spec, bins_of(spec), [tuple(r) for r in c["records"]], c["symmetric_upper"], c["form"],
+            c["value_columns"], c["dtypes"], c["pass_dtypes"], c["h5opts"], c["metadata"], c["assembly"], c["group"])
+    for v in B.violations:
+        r = json.load(open(v["replay"]))
+        print("FAIL", r["contract"], "\n  observed:", r["observed"], "\n  expected:", r["expected"], "\n  signature:", r["signature"])
+    print("contracts evaluated:", B.contracts, "violations:", len(B.violations))
+    return B.finish()
+
+
 def main():
     B = Bounded("C01", "bounded/C01.py")
+    try:
+        return body(B)
+    finally:
+        shutil.rmtree(B.tmp, ignore_errors=True)  # also when the runner itself crashes
+
+
+def body(B):
     T = B.thorough
     run = Runner(B)
     rng = B.rng
+    if B.replay_file:
+        return replay(B, run)
     nA_sym = 3
     nA_sym_quick_cap = 4                   # quick: symmetric n=3 0/1/2-valued with <= 4 non-zeros + ALL 0/1 matrices
     nA_sq_all = 2
     nA_sq_cap = (3, 4 if T else 2)         # square n=3: all matrices with <= cap non-zeros
-    nA_sym_cap = (4, 3) if T else None      # thorough: symmetric n=4 with <= 3 non-zeros
+    nA_sym_cap = (4, 4) if T else None      # thorough: symmetric n=4 with <= 4 non-zeros
     nB = 4
     maxbins_C = 6 if T else 5
     B.bound = (
@@ -549,7 +591,7 @@ def main():
     # ---------------------------------------------------------------- thorough: seeded sampling beyond the bound
     if T:
         B.exhaustive = False  # the sampled part is not exhaustive (sections A-G are)
-        for t in range(1500):
+        for t in range(2000):
             nb = rng.randint(5, 8)
             parts = rng.choice(list(compositions(nb, 3)))
             kind = rng.choice(["fixed-short-last", "fixed-exact", "variable"])
@@ -573,6 +615,7 @@ def main():
             run.run("S", spec_, bins_, recs_, symm, form, valcols, vdt, h5opts=rng.choice(H5SETS),
                     metadata=rng.choice([None, *METADATA[:8]]), assembly=rng.choice([None, *ASSEMBLIES[:8]]),
                     group=rng.choice([None, "/g", "/a/b/c"]))
+    run.R.dump()
     return B.finish()
 
 
